@@ -527,17 +527,146 @@ func (ix *c11Index) method(recvType, name string) c11Facts {
 
 // ---- scope/varsscope.go: locking
 
-// c11ScopeLocking: for every exported method of the scope type that touches storage / parent /
-// children: does a lock call on the receiver's lock precede the first touch ("locks"), or not
-// ("nolock")? For SetParentOfScope and NewChild: is the child's lock replaced by the parent's
-// ("adopts" / "keeps-own-lock")? Anything the extractor cannot find is "unknown".
+// c11ScopeLocking (three-valued). For every exported method of the scope type:
+//   "locks"        the method (or a same-type helper it calls first) takes the scope lock before the first touch of
+//                  storage / parent / children — the WRITE lock if the method (or a helper it calls) assigns to one of
+//                  them — and releases what it took (defer or explicit);
+//   "pure"         it touches none of them;
+//   "rlock-writer" REFUTED: it reaches a write of storage / parent / children but takes only the read lock;
+//   "no-unlock"    REFUTED: it takes the lock and never releases it;
+//   "nolock"       REFUTED: it touches them and contains no lock call of any kind;
+//   "unknown"      some lock call is there but the extractor cannot tie it to the scope lock.
+// The lock may be reached as <recv>.lock or through a local alias of it (l := s.lock).
+// For SetParentOfScope and NewChild: "adopts" = the child receives the parent's lock (assignment `c.lock = p.lock`, or
+// the lock field of the child's composite literal is `p.lock`); "keeps-own-lock" REFUTED = the function links child
+// and parent (assigns / fills `parent`) but nowhere hands over the lock; "unknown" otherwise.
 func c11ScopeLocking(root string) [][2]string {
 	p, err := loadSrcPkg(filepath.Join(root, "scope"))
 	if err != nil {
 		return [][2]string{{"package scope", "unknown"}}
 	}
-	var out [][2]string
 	shared := map[string]bool{"storage": true, "parent": true, "children": true}
+	// field order of the struct (for positional composite literals)
+	var fields []string
+	for _, f := range p.files {
+		for _, d := range f.Decls {
+			if gd, ok := d.(*ast.GenDecl); ok && gd.Tok == token.TYPE {
+				for _, sp := range gd.Specs {
+					if ts, ok := sp.(*ast.TypeSpec); ok && ts.Name.Name == "varsScope" {
+						if st, ok := ts.Type.(*ast.StructType); ok {
+							for _, fl := range st.Fields.List {
+								for _, n := range fl.Names {
+									fields = append(fields, n.Name)
+								}
+							}
+						}
+					}
+				}
+			}
+		}
+	}
+	type info struct {
+		touches, writes       bool
+		wlock, rlock, anyLock bool
+		unlock                bool
+		firstTouch, firstLock token.Pos
+	}
+	var analyse func(fd *ast.FuncDecl, depth int) info
+	analyse = func(fd *ast.FuncDecl, depth int) info {
+		var in info
+		recv := recvIdent(fd)
+		if recv == nil {
+			return in
+		}
+		// aliases of the lock: l := s.lock
+		lockAlias := map[*ast.Object]bool{}
+		ast.Inspect(fd.Body, func(n ast.Node) bool {
+			if as, ok := n.(*ast.AssignStmt); ok && len(as.Lhs) == 1 && len(as.Rhs) == 1 {
+				if sel, ok := as.Rhs[0].(*ast.SelectorExpr); ok && sel.Sel.Name == "lock" {
+					if id, ok := as.Lhs[0].(*ast.Ident); ok && id.Obj != nil {
+						lockAlias[id.Obj] = true
+					}
+				}
+			}
+			return true
+		})
+		isLockExpr := func(e ast.Expr) bool {
+			switch x := unparen(e).(type) {
+			case *ast.SelectorExpr:
+				return x.Sel.Name == "lock"
+			case *ast.Ident:
+				return x.Obj != nil && lockAlias[x.Obj]
+			}
+			return false
+		}
+		imports := map[string]string{}
+		forEachWrite(fd.Body, imports, func(t ast.Expr, kind string, pos token.Pos) {
+			if id, path := selectorPath(t); id != nil && id.Obj == recv.Obj && len(path) > 0 && shared[path[0]] {
+				in.writes = true
+			}
+		})
+		ast.Inspect(fd.Body, func(n ast.Node) bool {
+			switch x := n.(type) {
+			case *ast.SelectorExpr:
+				if id, ok := x.X.(*ast.Ident); ok && id.Obj == recv.Obj && shared[x.Sel.Name] {
+					in.touches = true
+					if in.firstTouch == token.NoPos || x.Pos() < in.firstTouch {
+						in.firstTouch = x.Pos()
+					}
+				}
+			case *ast.CallExpr:
+				sel, ok := x.Fun.(*ast.SelectorExpr)
+				if !ok {
+					return true
+				}
+				switch sel.Sel.Name {
+				case "Lock", "RLock":
+					in.anyLock = true
+					if isLockExpr(sel.X) {
+						if sel.Sel.Name == "Lock" {
+							in.wlock = true
+						} else {
+							in.rlock = true
+						}
+						if in.firstLock == token.NoPos || x.Pos() < in.firstLock {
+							in.firstLock = x.Pos()
+						}
+					}
+				case "Unlock", "RUnlock":
+					if isLockExpr(sel.X) {
+						in.unlock = true
+					}
+				default:
+					// a helper of the same type, called on the receiver (s.setValue(…)): what it touches / writes counts
+					if id, ok := sel.X.(*ast.Ident); ok && id.Obj == recv.Obj && depth < 2 {
+						if h, _ := p.methodDecl("varsScope", sel.Sel.Name); h != nil && h != fd {
+							hi := analyse(h, depth+1)
+							if hi.touches {
+								in.touches = true
+								if in.firstTouch == token.NoPos || x.Pos() < in.firstTouch {
+									in.firstTouch = x.Pos()
+								}
+							}
+							in.writes = in.writes || hi.writes
+							if hi.wlock || hi.rlock {
+								// the helper does the locking itself
+								in.wlock = in.wlock || hi.wlock
+								in.rlock = in.rlock || hi.rlock
+								in.unlock = in.unlock || hi.unlock
+								in.anyLock = true
+								if in.firstLock == token.NoPos || x.Pos() < in.firstLock {
+									in.firstLock = x.Pos()
+								}
+							}
+						}
+					}
+				}
+			}
+			return true
+		})
+		return in
+	}
+	var out [][2]string
 	for _, f := range p.files {
 		for _, d := range f.Decls {
 			fd, ok := d.(*ast.FuncDecl)
@@ -549,51 +678,70 @@ func c11ScopeLocking(root string) [][2]string {
 				rt = typeNameOf(fd.Recv.List[0].Type)
 			}
 			if rt == "varsScope" && ast.IsExported(fd.Name.Name) {
-				recv := recvIdent(fd)
-				firstTouch, firstLock := token.NoPos, token.NoPos
+				in := analyse(fd, 0)
+				v := "unknown"
+				switch {
+				case !in.touches:
+					v = "pure"
+				case !in.anyLock:
+					v = "nolock"
+				case in.writes && in.rlock && !in.wlock:
+					v = "rlock-writer"
+				case (in.wlock || in.rlock) && !in.unlock:
+					v = "no-unlock"
+				case (in.wlock || in.rlock) && in.firstLock != token.NoPos && in.firstLock <= in.firstTouch:
+					v = "locks"
+				}
+				out = append(out, [2]string{fd.Name.Name, v})
+			}
+			if fd.Name.Name == "SetParentOfScope" || (rt == "varsScope" && fd.Name.Name == "NewChild") {
+				adopts, links := false, false
 				ast.Inspect(fd.Body, func(n ast.Node) bool {
-					if sel, ok := n.(*ast.SelectorExpr); ok {
-						if id, ok := sel.X.(*ast.Ident); ok && recv != nil && id.Obj == recv.Obj && shared[sel.Sel.Name] {
-							if firstTouch == token.NoPos || sel.Pos() < firstTouch {
-								firstTouch = sel.Pos()
+					switch x := n.(type) {
+					case *ast.AssignStmt:
+						if len(x.Lhs) == 1 && len(x.Rhs) == 1 {
+							if l, ok := x.Lhs[0].(*ast.SelectorExpr); ok {
+								if l.Sel.Name == "parent" {
+									links = true
+								}
+								if r, ok := x.Rhs[0].(*ast.SelectorExpr); ok && l.Sel.Name == "lock" && r.Sel.Name == "lock" {
+									adopts = true
+								}
 							}
 						}
-					}
-					if c, ok := n.(*ast.CallExpr); ok {
-						if sel, ok := c.Fun.(*ast.SelectorExpr); ok && (sel.Sel.Name == "Lock" || sel.Sel.Name == "RLock") {
-							if in, ok := sel.X.(*ast.SelectorExpr); ok && in.Sel.Name == "lock" {
-								if firstLock == token.NoPos || c.Pos() < firstLock {
-									firstLock = c.Pos()
+					case *ast.CompositeLit:
+						if typeNameOf(x.Type) != "varsScope" {
+							return true
+						}
+						for i, e := range x.Elts {
+							name, val := "", e
+							if kv, ok := e.(*ast.KeyValueExpr); ok {
+								if k, ok := kv.Key.(*ast.Ident); ok {
+									name = k.Name
+								}
+								val = kv.Value
+							} else if i < len(fields) {
+								name = fields[i]
+							}
+							if name == "parent" {
+								if id, ok := val.(*ast.Ident); !ok || id.Name != "nil" {
+									links = true
+								}
+							}
+							if name == "lock" {
+								if r, ok := val.(*ast.SelectorExpr); ok && r.Sel.Name == "lock" {
+									adopts = true
 								}
 							}
 						}
 					}
 					return true
 				})
-				v := "pure"
-				switch {
-				case firstLock != token.NoPos && (firstTouch == token.NoPos || firstLock < firstTouch):
-					v = "locks"
-				case firstTouch != token.NoPos:
-					v = "nolock"
-				}
-				out = append(out, [2]string{fd.Name.Name, v})
-			}
-			if fd.Name.Name == "SetParentOfScope" || (rt == "varsScope" && fd.Name.Name == "NewChild") {
-				adopts := false
-				ast.Inspect(fd.Body, func(n ast.Node) bool {
-					if as, ok := n.(*ast.AssignStmt); ok && len(as.Lhs) == 1 && len(as.Rhs) == 1 {
-						l, lok := as.Lhs[0].(*ast.SelectorExpr)
-						r, rok := as.Rhs[0].(*ast.SelectorExpr)
-						if lok && rok && l.Sel.Name == "lock" && r.Sel.Name == "lock" {
-							adopts = true
-						}
-					}
-					return true
-				})
-				v := "keeps-own-lock"
+				v := "unknown"
 				if adopts {
 					v = "adopts"
+				} else if links {
+					v = "keeps-own-lock"
 				}
 				out = append(out, [2]string{fd.Name.Name + ":parent-lock", v})
 			}
@@ -662,7 +810,7 @@ func c11Extract(args []string) int {
 	b.WriteString("def funcRunSetupKnown : Bool := " + known(fn.setupState) + "\n")
 	b.WriteString("def funcRunSetupWhy : String := " + sfLeanStr(fn.setupState) + "\n")
 	b.WriteString("def funcRunScopeSetup : List (String × String) := " + pairs(fn.setup) + "\n\n")
-	b.WriteString("/-- scope/varsscope.go: exported methods of the scope type (`locks` = takes the scope lock before the\n    first touch of storage / parent / children, `nolock` = touches without, `pure` = touches none);\n    `…:parent-lock` = does the function replace the child's lock by the parent's (`adopts`) -/\n")
+	b.WriteString("/-- scope/varsscope.go: exported methods of the scope type (`locks` = takes the scope lock — the write lock if it\n    writes — before the first touch of storage / parent / children and releases it; `pure`; REFUTED values `nolock`,\n    `rlock-writer`, `no-unlock`; `unknown` = not judged); `…:parent-lock` = `adopts` / REFUTED `keeps-own-lock` / `unknown` -/\n")
 	b.WriteString("def scopeLocking : List (String × String) := [")
 	for i, e := range c11ScopeLocking(repoDir()) {
 		if i > 0 {
